@@ -226,6 +226,17 @@ pub fn feed_obs<D: TypeHash + AlignHash>(bytes: &Option<Vec<u8>>) -> String {
             if ah.0.is_empty() { "-".to_string() } else { hex(&ah.0) }, h1, h2, if hdr { "y" } else { "n" })
 }
 
+/// The feeds of the type that is serialized itself (a slice reference or an iterator wrapper
+/// delegates them to the vector; the header is written from the SerType).
+pub fn sfeed_case<S: TypeHash + AlignHash>(cid: &str, ops: &[String], out: &mut String) {
+    if !ops.iter().any(|o| o == "sfeed") {
+        return;
+    }
+    let s = feed_obs::<S>(&None);
+    let keep: Vec<&str> = s.split(' ').filter(|p| p.starts_with("t=") || p.starts_with("a=")).collect();
+    out.push_str(&format!("{} sfeed {}\n", cid, keep.join(" ")));
+}
+
 pub fn hdr_obs(bytes: &[u8]) -> String {
     // magic 8, major 2, minor 2, usize 1, type hash 8, align hash 8, name len 8, name
     let th = u64::from_le_bytes(bytes[13..21].try_into().unwrap());
@@ -703,6 +714,7 @@ where
             "load" => {} // handled by loaders::load_case, called by the generated code
             "cross" => {} // handled by cross_case, called by the generated code after run_case
             "dty" => {} // handled by dty_case, called by the generated code
+            "sfeed" => {} // handled by sfeed_case, called by the generated code
             _ => panic!("unknown op {}", op),
         }
         // one flush per operation: after an abort the orchestrator knows which operation was running
